@@ -490,6 +490,36 @@ func (st *State) convert(v Value, from, to types.Type) Value {
 		}
 		return &StructV{F: []Value{st.floatToFloat(c.F[0].(*Term), ft, tt), st.floatToFloat(c.F[1].(*Term), ft, tt)}}
 	}
+	// string <-> []byte for constant contents
+	if isStringType(from) {
+		if sl, ok := to.Underlying().(*types.Slice); ok && isIntType(sl.Elem()) {
+			t := v.(*Term)
+			if !t.Const {
+				st.unsupported("[]byte(symbolic string)")
+			}
+			el := make([]Value, len(t.CS))
+			for i := 0; i < len(t.CS); i++ {
+				el[i] = st.E.intTerm(big.NewInt(int64(t.CS[i])), sl.Elem())
+			}
+			if len(el) == 0 {
+				return &SliceV{}
+			}
+			o := st.newObject(nil, "bytes", &ArrayV{E: el})
+			return &SliceV{Obj: o, Len: len(el), Cap: len(el)}
+		}
+	}
+	if sl, ok := from.Underlying().(*types.Slice); ok && isStringType(to) && isIntType(sl.Elem()) {
+		sv := v.(*SliceV)
+		var bs []byte
+		for _, e := range st.sliceElems(sv) {
+			t := e.(*Term)
+			if !t.Const {
+				st.unsupported("string(symbolic bytes)")
+			}
+			bs = append(bs, byte(t.CI.Int64()))
+		}
+		return StrT(string(bs))
+	}
 	// pointer <-> unsafe.Pointer and the like: identity
 	switch from.Underlying().(type) {
 	case *types.Pointer:
